@@ -138,6 +138,8 @@ func nativeFallback() bool { return rewriteUnmodelled > 0 || dynNative != "" }
 // asleep in a primitive the simulator does not model (simrt.Sim.NativeBlocked).
 var dynNative string
 
+var spinLeak bool
+
 // runNative executes the tasks as ordinary goroutines released together.
 func runNative(w *Workload, prep [][]*Prepared, warm []*Prepared, cfg RunCfg) *RunResult {
 	env := newEnv(w.Codec)
@@ -245,6 +247,9 @@ func runSim(w *Workload, prep [][]*Prepared, warm []*Prepared, cfg RunCfg, keepE
 		if dynNative == "" {
 			dynNative = sim.BlockedInfo + " (last yield site " + sim.StuckSite + ")"
 			fmt.Fprintf(os.Stderr, "simrt: a task blocked in a primitive the simulator does not model: %s; continuing with ordinary goroutines (NATIVE-FALLBACK)\n", dynNative)
+		}
+		if strings.Contains(sim.BlockedInfo, "spinning") {
+			spinLeak = true // an abandoned goroutine keeps a CPU busy: this worker ends after the workload
 		}
 		return runNative(w, prep, warm, cfg)
 	}
